@@ -6,6 +6,8 @@ PROPS = {
                      "the real session.Loader + FileStorage under strace. Real kills (quick: grow / shrink / same-size pair, thorough: all pairs): every system call of the save on the pinned "
                      "thread is a kill point (one strace run each, the kill verified in that run's trace and against the model). Offline replay (all pairs): the recorded calls and bytes "
                      "are replayed on a model filesystem for every call boundary, writes cut at 1/half/n-1/page bytes and all power-loss states of the model. "
+                     "Crash-then-save-again: on every distinct directory state left by a crash of the first save (incl. leftover temp files of size 0/partial/full) the real code "
+                     "saves a shorter / equal-length / longer session C, which must then load as C; a sample of these second saves is killed at its own system calls. "
                      "Each surviving file is loaded by the real Loader: anything but the complete old or complete new session is a violation "
                      "(process-crash|empty-file, process-crash|corrupt, power-loss|...). System-call boundaries of the save are enumerated completely per size pair.",
                 note="Process-crash results at call boundaries are observations of the real kernel (ext4 here); cut writes are replayed, not observed. The power-loss part is a model "
